@@ -29,6 +29,7 @@ def run(ctx):
     A.r18_3_written_vs_accepted(ctx)
     A.r18_4_replace_not_mutate(ctx)
     H.r15_4_no_node_twice(ctx, 'R18.5')
+    H.r18_6_set_value_copies(ctx)
     src = __import__('ast').unparse(ctx.P.func('yaml.composer:Composer.compose_node').node)
     if 'return self.anchors[anchor]' not in src:
         from ..model import AnalysisError
